@@ -585,6 +585,11 @@ def _d_items(it, v, args, kwargs, node):
     if comp is not None and isinstance(comp[0], TupleV) and len(comp[0].items) == 2 and not v.items and not v.sym_stores:
         # a dict comprehension that was not changed since: its items are the generic (key, value) pair of the comprehension
         return IterV(TupleV(list(comp[0].items)), src=v, desc='items')
+    if not v.open and not v.sym_stores and comp is None and getattr(v, 'merged', None) is None and len(v.items) <= 16:
+        # a fully known dictionary: its items, in insertion order
+        r = ListV(items=[TupleV([it.from_py(key), x]) for key, x in v.items.items()], desc='items')
+        r.src = v
+        return r
     val = SymV(it.fresh('value'), 'any', origin=('value-of', v), tags=v.tags)
     return IterV(TupleV([k, val]), src=v, desc='items')
 
